@@ -2,10 +2,29 @@
    PROVED: parameter conversions and the structure of the tables.  VALIDATED, not proved (they cannot
    be: floating-point special functions of third-party libraries): numerical agreement of the
    implementation's complete tables with independently computed ones (scipy / math), within 1e-6. *)
-From Coq Require Import QArith List Arith Bool.
+From Coq Require Import QArith List Arith Bool Lia.
 From MdpaxV Require Import Model.QFun Model.Hendrix Proofs.C13P Proofs.C16P Proofs.MultinomP Proofs.HendrixP.
+From MdpaxGen Require Import GenProbStruct.
 Import ListNotations.
 Open Scope Q_scope.
+
+(* tie to the source (gen/GenProbStruct.v is regenerated on every run; it accepts exactly the statements around the third-party
+   special functions): the conversions, the CDF evaluation points, the folding of the tail and the logit order that the
+   theorems of this file and of C13 are about are the ones the code performs *)
+Theorem generated_probability_structure :
+  (forall cdf, gen_demoor_demand_probabilities cdf = censored_pmf cdf) /\
+  (forall D, length (gen_demoor_cdf_points D) = (D + 2)%nat) /\
+  (forall pm, gen_mirjalili_demand_probabilities pm = add_last pm (1 - qsum pm)) /\
+  (forall c0 c1 a, gen_multinomial_logits c0 c1 a = mj_logits c0 c1 a) /\
+  (forall mean cov, 0 < mean -> 0 < cov -> fst (gen_convert_gamma_parameters mean cov) / snd (gen_convert_gamma_parameters mean cov) == mean) /\
+  (forall n delta, 0 < n -> 0 < delta -> n * (1 - gen_negbin_p n delta) / gen_negbin_p n delta == delta).
+Proof.
+  repeat split; try reflexivity.
+  - intros D. unfold gen_demoor_cdf_points. cbn [length]. rewrite map_length, seq_length. lia.
+  - intros mean cov Hm Hc. exact (proj1 (gamma_shape_rate_l mean cov Hm Hc)).
+  - intros n delta Hn Hd. exact (proj1 (negbin_success_prob_l n delta Hn Hd)).
+Qed.
+Print Assumptions generated_probability_structure.
 
 (* mean / coefficient of variation -> shape / rate:  shape / rate = mean, shape * cov^2 = 1 *)
 Theorem gamma_shape_rate_partial : forall mean cov, 0 < mean -> 0 < cov ->
